@@ -65,4 +65,4 @@ MASK_BIT_OF_CLASS = {
 
 # static (internal linkage) functions of the baseline tree, A/W suffix stripped.  A static function that is NOT in this
 # list is a helper extracted later; the per-function ownership / revert rules see it inlined into its callers.
-BASELINE_STATIC = ['uriAddBaseUriImpl', 'uriAppendSegment', 'uriContainsUglyPercentEncoding', 'uriContainsUppercaseLetters', 'uriDecorateFree', 'uriDecorateMalloc', 'uriDecorateRealloc', 'uriDefaultCalloc', 'uriDefaultFree', 'uriDefaultMalloc', 'uriDefaultRealloc', 'uriDefaultReallocarray', 'uriEqualsAuthority', 'uriFilenameToUriString', 'uriFixPercentEncodingEngine', 'uriFixPercentEncodingInplace', 'uriFixPercentEncodingMalloc', 'uriLowercaseInplace', 'uriLowercaseMalloc', 'uriMakeOwnerEngine', 'uriMakeRangeOwner', 'uriMergePath', 'uriNormalizeSyntaxEngine', 'uriOnExitOwnHost2', 'uriOnExitOwnHostUserInfo', 'uriOnExitOwnPortUserInfo', 'uriOnExitPartHelperTwo', 'uriOnExitSegmentNzNcOrScheme2', 'uriParseAuthority', 'uriParseAuthorityTwo', 'uriParseDecOctet', 'uriParseDecOctetFour', 'uriParseDecOctetOne', 'uriParseDecOctetThree', 'uriParseDecOctetTwo', 'uriParseHexZero', 'uriParseHierPart', 'uriParseIPv6address2', 'uriParseIpFutLoop', 'uriParseIpFutStopGo', 'uriParseIpFuture', 'uriParseIpLit2', 'uriParseMustBeSegmentNzNc', 'uriParseOwnHost', 'uriParseOwnHost2', 'uriParseOwnHostUserInfo', 'uriParseOwnHostUserInfoNz', 'uriParseOwnPortUserInfo', 'uriParseOwnUserInfo', 'uriParsePartHelperTwo', 'uriParsePathAbsEmpty', 'uriParsePathAbsNoLeadSlash', 'uriParsePathRootless', 'uriParsePchar', 'uriParsePctEncoded', 'uriParsePctSubUnres', 'uriParsePort', 'uriParseQueryFrag', 'uriParseSegment', 'uriParseSegmentNz', 'uriParseSegmentNzNcOrScheme2', 'uriParseUriExMm', 'uriParseUriReference', 'uriParseUriTail', 'uriParseUriTailTwo', 'uriParseZeroMoreSlashSegs', 'uriPreventLeakage', 'uriPushPathSegment', 'uriRemoveBaseUriImpl', 'uriResetParserStateExceptUri', 'uriResolveAbsolutePathFlag', 'uriStopMalloc', 'uriStopSyntax', 'uriToStringEngine', 'uriUriStringToFilename']
+BASELINE_STATIC = ['uriAddBaseUriImpl', 'uriAppendQueryItem', 'uriAppendSegment', 'uriComposeQueryEngine', 'uriContainsUglyPercentEncoding', 'uriContainsUppercaseLetters', 'uriDecorateFree', 'uriDecorateMalloc', 'uriDecorateRealloc', 'uriDefaultCalloc', 'uriDefaultFree', 'uriDefaultMalloc', 'uriDefaultRealloc', 'uriDefaultReallocarray', 'uriEqualsAuthority', 'uriFilenameToUriString', 'uriFixPercentEncodingEngine', 'uriFixPercentEncodingInplace', 'uriFixPercentEncodingMalloc', 'uriLowercaseInplace', 'uriLowercaseMalloc', 'uriMakeOwnerEngine', 'uriMakeRangeOwner', 'uriMergePath', 'uriNormalizeSyntaxEngine', 'uriOnExitOwnHost2', 'uriOnExitOwnHostUserInfo', 'uriOnExitOwnPortUserInfo', 'uriOnExitPartHelperTwo', 'uriOnExitSegmentNzNcOrScheme2', 'uriParseAuthority', 'uriParseAuthorityTwo', 'uriParseDecOctet', 'uriParseDecOctetFour', 'uriParseDecOctetOne', 'uriParseDecOctetThree', 'uriParseDecOctetTwo', 'uriParseHexZero', 'uriParseHierPart', 'uriParseIPv6address2', 'uriParseIpFutLoop', 'uriParseIpFutStopGo', 'uriParseIpFuture', 'uriParseIpLit2', 'uriParseMustBeSegmentNzNc', 'uriParseOwnHost', 'uriParseOwnHost2', 'uriParseOwnHostUserInfo', 'uriParseOwnHostUserInfoNz', 'uriParseOwnPortUserInfo', 'uriParseOwnUserInfo', 'uriParsePartHelperTwo', 'uriParsePathAbsEmpty', 'uriParsePathAbsNoLeadSlash', 'uriParsePathRootless', 'uriParsePchar', 'uriParsePctEncoded', 'uriParsePctSubUnres', 'uriParsePort', 'uriParseQueryFrag', 'uriParseSegment', 'uriParseSegmentNz', 'uriParseSegmentNzNcOrScheme2', 'uriParseUriExMm', 'uriParseUriReference', 'uriParseUriTail', 'uriParseUriTailTwo', 'uriParseZeroMoreSlashSegs', 'uriPreventLeakage', 'uriPushPathSegment', 'uriRemoveBaseUriImpl', 'uriResetParserStateExceptUri', 'uriResolveAbsolutePathFlag', 'uriStopMalloc', 'uriStopSyntax', 'uriToStringEngine', 'uriUriStringToFilename']
